@@ -150,6 +150,15 @@ Fixpoint lookup (k : Z) (l : list (Z * option nat)) : option (option nat) :=
   match l with [] => None | (k', v) :: t => if (k =? k')%Z then Some v else lookup k t end.
 
 Record pcd := { pc_assigned : option nat; pc_instr : option nat; pc_choices : list (nat * nat) }.
+(* the choice list: ignored courses are dropped, the others keep their position in the original list as penalty *)
+Fixpoint pcd_choices (cmap : list (Z * option nat)) (l : list json) (i : nat) : result (list (nat * nat)) :=
+  match l with
+  | [] => ROk []
+  | v :: t => let* cid := ok_or (as_u64 v) 46 in
+              let* ci := ok_or (lookup cid cmap) 47 in
+              let* rest := pcd_choices cmap t (S i) in
+              ROk (match ci with Some c => (c, i) :: rest | None => rest end)
+  end.
 Definition parse_pcd (reg : json) (track_id : Z) (cmap : list (Z * option nat)) : result pcd :=
   let* rt := ok_or (match get "tracks" reg with Some v => match as_object v with Some o => match assoc (zstr track_id) o with Some t => match as_object t with Some _ => Some t | None => None end | None => None end | None => None end | None => None end) 40 in
   let* acj := ok_or (get "course_id" rt) 41 in
@@ -161,15 +170,7 @@ Definition parse_pcd (reg : json) (track_id : Z) (cmap : list (Z * option nat)) 
                 | Some cid => let* ci := ok_or (lookup cid cmap) 44 in ROk ci
                 | None => ROk None end in
   let* chs := ok_or (match get "choices" rt with Some v => as_array v | None => None end) 45 in
-  let fix go (l : list json) (i : nat) : result (list (nat * nat)) :=
-    match l with
-    | [] => ROk []
-    | v :: t => let* cid := ok_or (as_u64 v) 46 in
-                let* ci := ok_or (lookup cid cmap) 47 in
-                let* rest := go t (S i) in
-                ROk (match ci with Some c => (c, i) :: rest | None => rest end)
-    end in
-  let* choices := go chs 0 in
+  let* choices := pcd_choices cmap chs 0 in
   ROk {| pc_assigned := assigned; pc_instr := instr; pc_choices := choices |}.
 
 Fixpoint upd {A} (l : list A) (i : nat) (v : A) : list A :=
@@ -177,7 +178,24 @@ Fixpoint upd {A} (l : list A) (i : nat) (v : A) : list A :=
 Definition modify {A} (l : list A) (i : nat) (f : A -> A) (d : A) : list A := upd l i (f (nth i l d)).
 Definition dflt_c : rcourse := {| rc_dbid := 0; rc_name := ""; rc_min := 0; rc_max := 0; rc_instr := []; rc_fixed := false; rc_hidden := []; rc_inv_instr := 0; rc_inv_att := 0 |}.
 
-Definition read (data : json) (track : option Z) (ign_c ign_a : bool) : result (list rpart * list rcourse) :=
+(* adapt_course_for_invisible_participants: reserve the places of ignored pre-assigned attendees, pin the course *)
+Definition adapt_course (c : rcourse) : rcourse :=
+  let ia := Z.of_nat (rc_inv_att c) in
+  {| rc_dbid := rc_dbid c; rc_name := rc_name c;
+     rc_min := (if (rc_min c <? ia)%Z then 0 else rc_min c - ia)%Z; rc_max := (if (rc_max c <? ia)%Z then 0 else rc_max c - ia)%Z;
+     rc_instr := rc_instr c; rc_fixed := negb (Nat.eqb (rc_inv_instr c + rc_inv_att c) 0); rc_hidden := rc_hidden c;
+     rc_inv_instr := rc_inv_instr c; rc_inv_att := rc_inv_att c |}.
+
+(* what read() returns besides participants and courses (ImportAmbienceData and AssignmentQualityInfo) *)
+Record ramb := { ra_event : Z; ra_track : Z; ra_part : Z; ra_qual : option (nat * list nat); ra_ign_courses : nat; ra_ign_regs : nat }.
+Definition unchosen_penalty (td : json) : nat :=
+  S (match get "num_choices" td with Some v => match as_u64 v with Some z => Z.to_nat z | None => 0 end | None => 0 end).
+
+(* penalty_for_assigned_course_choice (after fix f94b8fe): the penalty of the found choice = its rank in the original list *)
+Definition assigned_penalty (ci : nat) (choices : list (nat * nat)) (td : json) : nat :=
+  match find (fun ch : nat * nat => Nat.eqb (fst ch) ci) choices with Some ch => snd ch | None => unchosen_penalty td end.
+
+Definition read_full (data : json) (track : option Z) (ign_c ign_a : bool) : result (list rpart * list rcourse * ramb) :=
   let* _ := check_version data in
   let* _ts := ok_or (match get "timestamp" data with Some v => as_str v | None => None end) 9 in
   let* parts := ok_or (match get "event" data with Some ev => match as_object ev with Some _ => match get "parts" ev with Some p => as_object p | None => None end | None => None end | None => None end) 10 in
@@ -202,9 +220,10 @@ Definition read (data : json) (track : option Z) (ign_c ign_a : bool) : result (
   let cmap : list (Z * option nat) :=
     (map (fun cid => (cid, None)) skipped ++ map (fun '(i, c) => (rc_dbid c, Some i)) (combine (seq 0 (List.length courses0)) courses0))%list in
   let* rdata := ok_or (match get "registrations" data with Some v => as_object v | None => None end) 14 in
-  let fix gor (l : list (string * json)) (i : nat) (courses : list rcourse) (acc : list rpart) : result (list rpart * list rcourse) :=
+  let fix gor (l : list (string * json)) (i : nat) (courses : list rcourse) (acc : list rpart) (q : nat * list nat) (nign : nat)
+    : result (list rpart * list rcourse * (nat * list nat) * nat) :=
     match l with
-    | [] => ROk (rev acc, courses)
+    | [] => ROk (rev acc, courses, q, nign)
     | (k, reg) :: t =>
         let* rid := ok_or (parse_u64 k) 15 in
         (* extract_participant_base_data *)
@@ -218,7 +237,7 @@ Definition read (data : json) (track : option Z) (ign_c ign_a : bool) : result (
         let* gn := ok_or (match get "given_names" persona with Some v => as_str v | None => None end) 19 in
         let* fn := ok_or (match get "family_name" persona with Some v => as_str v | None => None end) 19 in
         let name := (gn ++ " " ++ fn)%string in
-        if negb is_part then gor t i courses acc else
+        if negb is_part then gor t i courses acc q nign else
         let* d := parse_pcd reg track_id cmap in
         match (if ign_a then pc_assigned d else None) with
         | Some ci =>
@@ -227,33 +246,35 @@ Definition read (data : json) (track : option Z) (ign_c ign_a : bool) : result (
                    rc_hidden := (rc_hidden c ++ [name])%list;
                    rc_inv_instr := (match pc_instr d with Some c' => if Nat.eqb c' ci then S (rc_inv_instr c) else rc_inv_instr c | None => rc_inv_instr c end);
                    rc_inv_att := (match pc_instr d with Some c' => if Nat.eqb c' ci then rc_inv_att c else S (rc_inv_att c) | None => S (rc_inv_att c) end) |}) dflt_c in
-            gor t i courses' acc
+            let q' := match pc_instr d with
+                      | Some c' => if Nat.eqb c' ci then (S (fst q), snd q) else (fst q, (snd q ++ [assigned_penalty ci (pc_choices d) _td])%list)
+                      | None => (fst q, (snd q ++ [assigned_penalty ci (pc_choices d) _td])%list) end in
+            gor t i courses' acc q' (S nign)
         | None =>
             match pc_choices d, pc_instr d with
-            | [], None => gor t i courses acc
+            | [], None => gor t i courses acc q nign
             | _, _ =>
                 let courses' := match pc_instr d with
                                 | Some ci => modify courses ci (fun c =>
                                     {| rc_dbid := rc_dbid c; rc_name := rc_name c; rc_min := rc_min c; rc_max := rc_max c; rc_instr := (rc_instr c ++ [i])%list;
                                        rc_fixed := rc_fixed c; rc_hidden := rc_hidden c; rc_inv_instr := rc_inv_instr c; rc_inv_att := rc_inv_att c |}) dflt_c
                                 | None => courses end in
-                gor t (S i) courses' ({| rp_dbid := rid; rp_name := name; rp_choices := pc_choices d |} :: acc)
+                gor t (S i) courses' ({| rp_dbid := rid; rp_name := name; rp_choices := pc_choices d |} :: acc) q nign
             end
         end
     end in
-  let* (ps, cs) := gor (obj_items rdata) 0 courses0 [] in
+  let* (ps, cs, q, nign) := gor (obj_items rdata) 0 courses0 [] (0, []) 0 in
   (* adapt_course_for_invisible_participants *)
-  let cs' := map (fun c =>
-     let ia := Z.of_nat (rc_inv_att c) in
-     {| rc_dbid := rc_dbid c; rc_name := rc_name c;
-        rc_min := (if (rc_min c <? ia)%Z then 0 else rc_min c - ia)%Z; rc_max := (if (rc_max c <? ia)%Z then 0 else rc_max c - ia)%Z;
-        rc_instr := rc_instr c; rc_fixed := negb (Nat.eqb (rc_inv_instr c + rc_inv_att c) 0); rc_hidden := rc_hidden c;
-        rc_inv_instr := rc_inv_instr c; rc_inv_att := rc_inv_att c |}) cs in
-  let* _id := ok_or (match get "id" data with Some v => as_u64 v | None => None end) 50 in
+  let cs' := map adapt_course cs in
+  let* eid := ok_or (match get "id" data with Some v => as_u64 v | None => None end) 50 in
   let* _sn := (match track with Some _ => let* _ := ok_or (match get "shortname" _td with Some v => as_str v | None => None end) 51 in ROk tt | None =>
                (* the `?` inside then_some is evaluated eagerly in the Rust code *)
                let* _ := ok_or (match get "shortname" _td with Some v => as_str v | None => None end) 51 in ROk tt end) in
-  ROk (ps, cs').
+  ROk (ps, cs', {| ra_event := eid; ra_track := track_id; ra_part := part_id; ra_qual := if ign_a then Some q else None;
+                    ra_ign_courses := List.length skipped; ra_ign_regs := nign |}).
+
+Definition read (data : json) (track : option Z) (ign_c ign_a : bool) : result (list rpart * list rcourse) :=
+  match read_full data track ign_c ign_a with ROk (ps, cs, _) => ROk (ps, cs) | RErr c => RErr c end.
 
 (* ---- comparison against the implementation's dump (used by generated case files) ---- *)
 Definition eqb_list {A B} (eqb : A -> B -> bool) (l1 : list A) (l2 : list B) : bool :=
